@@ -231,7 +231,7 @@ META = {
                 "the frames of the next message arrive and the application accepts, over and over, the deliveries returned are exactly the messages sent, once each, in order, no "
                 "delivery is refused for lack of credit and the link is idle again after every round (C01_stream_intact: composes the cut, the reassembly and the credit replenishment). The two models are tied to the code by the C07 (split_transfer against model and encoder) and C10 (Receiver "
                 "against model) correspondences, re-run here; the composed real system (client, listener, both directions, re-chunked byte stream, generated "
-                "configurations) is checked end to end by a direct oracle every run. On the wire: C01_wire_transfer_read_back - the four transfer performatives of encode_transfer built with the typed-layer model (as given / more / cleared / cleared+more), laid out as C06 proves, are read by the model of the receiving FrameDecoder frame by frame as transfer performatives with exactly the expected fields, the payload parts concatenating to the payload; both ends are run against the real Transport and FrameDecoder every run (fdec xfer cases).",
+                "configurations) is checked end to end by a direct oracle every run. On the wire: C01_wire_transfer_read_back - the four transfer performatives of encode_transfer built with the typed-layer model (as given / more / cleared / cleared+more), laid out as C06 proves, are read by the model of the receiving FrameDecoder frame by frame as transfer performatives with exactly the expected fields, the payload parts concatenating to the payload; both ends are run against the real Transport and FrameDecoder every run (fdec xfer cases). C01_wire_to_delivery closes the chain for a delivery that does not fit a frame: sending transport -> bytes of every frame -> receiving FrameDecoder -> the fields the receiving link reads -> receiving link with credit: nothing before the last frame, then exactly one delivery with the payload, the delivery-id and the tag of the first frame.",
         "design_ref": "DESIGN.md section 4, C01",
         "note": "Trusted: Coq kernel, extraction, the harnesses. Fixed defect: transfer-ids were assigned per delivery, not per frame: sends stalled after a message "
                 "larger than max-frame-size (83a401a). Known findings: deadlock with channel buffers of 1-2.",
